@@ -72,7 +72,7 @@ AncR(r) == IF R(r).parent = 0 THEN {} ELSE {R(r).parent} \cup AncR(R(r).parent)
 Kids(c)  == {t \in 1..NT : T(t).parent = c}
 Leafs    == {t \in 1..NT : T(t).leaf}
 AllDeps(t) == UNION {SeqSet(T(a).deps) : a \in {t} \cup AncT(t)}   \* own + every enclosing container's
-Succs(t) == {u \in Leafs : \E d \in SeqSet(T(u).deps) : d.p = t}
+Succs(t) == {u \in Leafs : \E d \in AllDeps(u) : d.p = t}    \* own and inherited edges alike
 
 (* ------------------------------- ledger ------------------------------------ *)
 Used(r, s)  == IF <<r, s>> \in DOMAIN used THEN used[<<r, s>>] ELSE 0
@@ -104,14 +104,14 @@ BoundF(t) ==
 RECURSIVE NearestEnd(_)
 NearestEnd(t) == IF T(t).parent = 0 THEN -1
                  ELSE IF T(T(t).parent).pinEnd >= 0 THEN T(T(t).parent).pinEnd ELSE NearestEnd(T(t).parent)
-FSuccs(t) == {u \in Leafs : \E d \in SeqSet(T(u).deps) : d.p = t /\ ~d.onstart}
-Terminal(t) == FSuccs(t) = {} /\ \A d \in SeqSet(T(t).deps) : ~d.onstart
+FSuccs(t) == {u \in Leafs : \E d \in AllDeps(u) : d.p = t /\ ~d.onstart}
+Terminal(t) == FSuccs(t) = {} /\ \A d \in AllDeps(t) : ~d.onstart
 UbEnd(t) == IF T(t).leaf /\ ~Fwd(t) /\ T(t).pinEnd < 0 /\ Terminal(t) THEN NearestEnd(t) ELSE -1
 OwnEnd(t) == IF T(t).pinEnd >= 0 THEN T(t).pinEnd ELSE UbEnd(t)
 ReadyB(t) == \/ OwnEnd(t) >= 0
              \/ /\ \A d \in AllDeps(t) : d.onstart => (d.p # 0 /\ ts[d.p].sched)
                 /\ \A u \in Succs(t) : ts[u].sched
-GapTo(u, t) == LET ds == {d \in SeqSet(T(u).deps) : d.p = t /\ ~d.onstart}
+GapTo(u, t) == LET ds == {d \in AllDeps(u) : d.p = t /\ ~d.onstart}
                IN IF ds = {} THEN 0 ELSE MaxOf({d.gap : d \in ds})
 Deadline(t) ==
   IF OwnEnd(t) >= 0 THEN OwnEnd(t)
@@ -121,8 +121,12 @@ Deadline(t) ==
 Ready(t) == ts[t].st = "todo" /\ T(t).leaf /\ IF Fwd(t) THEN ReadyF(t) ELSE ReadyB(t)
 FirstReady(t) == Ready(t) /\ \A u \in Leafs : (u # t /\ Ready(u)) => Before(t, u)
 AnyOnShift(t, s) == \E r \in SeqSet(T(t).alloc) \cup SeqSet(T(t).alt) : OnShift(r, s)
+\* last slot <= s in which any candidate resource of t is on shift (0 if none); searched in blocks of 64
+\* slots so that the recursion depth stays small on long horizons
 RECURSIVE DownTo(_, _)
-DownTo(t, s) == IF s <= 0 THEN 0 ELSE IF AnyOnShift(t, s) THEN s ELSE DownTo(t, s - 1)
+DownTo(t, s) == IF s <= 0 THEN 0
+                ELSE LET c == {x \in Max2(0, s - 63)..s : AnyOnShift(t, x)}
+                     IN  IF c # {} THEN MaxOf(c) ELSE DownTo(t, s - 64)
 CursorB(t, dl) == DownTo(t, dl \div G - 1)
 
 (* ------------------------------- the walk ------------------------------------ *)
@@ -150,7 +154,7 @@ DateOk(dateSec, ticks, r) == 2 * Abs(dateSec * R(r).effN - ticks) <= R(r).effN  
 
 (* ------------------------------- dialects ------------------------------------ *)
 HasFlag(t, f) == f \in SeqSet(T(t).flags)
-MaxGapSucc(t) == \E u \in Succs(t) : \E d \in SeqSet(T(u).deps) : d.p = t /\ d.maxgap
+MaxGapSucc(t) == \E u \in Succs(t) : \E d \in AllDeps(u) : d.p = t /\ d.maxgap
 \* a task whose placement follows the plain list-scheduling rule (no waiting on purpose)
 Plain(t) == ~HasFlag(t, "contiguous") /\ ~MaxGapSucc(t) /\ ~T(t).other
             /\ \A d \in AllDeps(t) : ~d.gaplen /\ ~d.clone
@@ -175,7 +179,7 @@ P04Of(t, st, en) ==
          \A d \in {x \in AllDeps(t) : x.p # 0 /\ ts[x.p].sched /\ ts[x.p].fwd = Fwd(t) /\ (x.onstart => Fwd(t))} :
             st >= (IF d.onstart THEN ts[d.p].start ELSE ts[d.p].end) + d.gap
    /\ \A u \in {v \in Succs(t) : ts[v].sched /\ ~Pinned(v) /\ ts[v].fwd = Fwd(t)} :   \* successors placed before t (backward mode)
-         \A d \in {x \in SeqSet(T(u).deps) : x.p = t /\ ~x.onstart} : ts[u].start >= en + d.gap
+         \A d \in {x \in AllDeps(u) : x.p = t /\ ~x.onstart} : ts[u].start >= en + d.gap
 \* C08 (forward) for a single unlimited resource: at Finish (no other task has moved since t started) every
 \* on-shift slot between the bound slot and the last one has no free tick left -- t took whatever was free
 \* when it passed.  Lead-in reservations of other tasks count as used (D6).
